@@ -218,10 +218,16 @@ def unitary_of(tuples, ne, np_, order=None):
 
 
 # ------------------------------------------------------------------------------------------------ the direct oracle
-def oracle(res, ne, np_, nc, adds, state_check=True, qiskit_check=True, key_prefix=""):
-    """evaluate C14 on the implementation for the circuit built by adding `adds`; returns the objects the correspondence needs"""
+def oracle(res, ne, np_, nc, adds, state_check=True, qiskit_check=True, key_prefix="", history=None):
+    """evaluate C14 on the implementation for the circuit built by adding `adds` (or, with `history` = 'replace' | 'insert', the same
+    circuit reached through `replace_op` / `insert_at`); returns the objects the correspondence needs"""
     inp = {"ne": ne, "np": np_, "nc": nc, "adds": cu.enc_ops(adds)}
-    c = cu.build(ne, np_, nc, adds)
+    if history:
+        inp["history"] = history
+        _build = lambda *a: cu.build_history(*a, mode=history)  # noqa: E731
+    else:
+        _build = cu.build
+    c = _build(ne, np_, nc, adds)
     seq, idx = cu.seq_order(c)
     if not cu.is_linear_extension(adds, idx):
         res.notes.append("networkx.topological_sort returned an order that is not a linear extension (library specification violated)")
@@ -233,7 +239,7 @@ def oracle(res, ne, np_, nc, adds, state_check=True, qiskit_check=True, key_pref
         return out
     want_w = cu.wires(adds, quantum_only=True)
     # -- determinism
-    c_again = cu.build(ne, np_, nc, adds)
+    c_again = _build(ne, np_, nc, adds)
     for what, other in (("same object", c), ("deep copy", copy.deepcopy(c)), ("rebuilt circuit", c_again)):
         t2, j2 = other.to_openqasm(), other.to_json()
         if what == "rebuilt circuit":
@@ -748,6 +754,25 @@ def run(ctx):
     # 3. many registers: multi-digit indices
     run_circuits(res, drv, random_specs(rng, 250 if q else 3000, lambda r: (r.randrange(9, 15), r.randrange(9, 15), r.randrange(1, 14), r.randrange(5, 40))),
                  state_check=False)
+    # 3b. the same circuits reached through other edit histories (replace_op of a placeholder, insert_at on the output edges): the
+    #     exporters read header material that every edit path must have registered; oracle only (the header then also lists the
+    #     placeholders' definitions, which the model of `add`-built circuits does not contain — not a property matter)
+    n0 = res.evaluations
+    for hist in ("replace", "insert"):
+        for (ne, np_, nc, adds) in ([(1, 1, 1, list(w)) for n in (1, 2) for w in itertools.product(al, repeat=n)]
+                                     + random_specs(rng, 120 if q else 1500, lambda r: (r.randrange(1, 4), r.randrange(1, 4), r.randrange(1, 3),
+                                                                                     r.randrange(1, 12)))):
+            if hist == "insert" and any(t[0] in ("cctrl", "meas") for t in adds):
+                adds = [t for t in adds if t[0] not in ("cctrl", "meas")]
+                if not adds:
+                    continue
+            nv = len(res.violations)
+            oracle(res, ne, np_, nc, adds, state_check=(ne + np_ <= 4), qiskit_check=True, key_prefix="history:", history=hist)
+            res.evaluations += 1
+            res.nontrivial(("hist", hist, ne, np_, nc, cu.enc_ops(adds)))
+            if len(res.violations) > nv:
+                break
+    res.extra["history_built_circuits"] = res.evaluations - n0
     # 4. importers on arbitrary inputs
     run_parser_stream(res, drv, rng, 2500 if q else 40000)
     run_text_stream(res, drv, rng, 1500 if q else 25000)
@@ -792,7 +817,7 @@ def replay(ctx, data):
     if not isinstance(inp, dict) or "adds" not in inp:
         return None
     r = Result()
-    oracle(r, int(inp["ne"]), int(inp["np"]), int(inp["nc"]), cu.dec_ops(inp["adds"]))
+    oracle(r, int(inp["ne"]), int(inp["np"]), int(inp["nc"]), cu.dec_ops(inp["adds"]), history=inp.get("history"))
     for x in r.violations:
         print("still failing:", x["key"], "-", x["clause"])
     return not r.violations
